@@ -11,6 +11,28 @@ def src_of(case):
     return case.get("src", "")
 
 
+# F24: `arguments` of a non-arrow function referenced from an arrow function nested in it
+F24_RE = re.compile(r"=>\s*(?:\{[^{}]*\barguments\b|[^;{}]*\barguments\b)")
+
+
+def pred_f24(case, record, expected_text):
+    obs = record.get("obs", "")
+    m = re.match(r"crash=(\d+)", obs)
+    crash = int(m.group(1)) if m else 0
+    return crash == 1 and "runtime.boundsError" in obs and "index out of range" in obs and bool(F24_RE.search(src_of(case)))
+
+
+# F25: return() into a generator that is suspended at a yield inside a finally block
+F25_RE = re.compile(r"function\s*\*.*finally\s*\{[^}]*\byield\b.*\.return\s*\(", re.S)
+
+
+def pred_f25(case, record, expected_text):
+    obs = record.get("obs", "")
+    m = re.match(r"crash=(\d+)", obs)
+    crash = int(m.group(1)) if m else 0
+    return crash == 16 and "idle:" in obs and bool(F25_RE.search(src_of(case)))
+
+
 def candidates(case):
     """source-level shrinking: drop a line, then drop a top-level ;-separated chunk"""
     src = src_of(case)
@@ -49,8 +71,8 @@ def stage(ctx):
             ctx.eval_errors = True
         ctx.log("%s: %d cases, %d mismatches" % (source, len(recs), len(bad)))
         if bad:
-            # no finding of C01 is open: every mismatch is shrunk and reported (F18, F20-F23 are fixed in /repo;
-            # their corpus cases are plain regressions)
+            # F18, F20-F23 are fixed in /repo (their corpus cases are plain regressions); open findings are
+            # recognised by their narrow predicates, everything else is shrunk and reported
             vcheck.handle_mismatches(ctx, binp, recs, bad, source)
         return len(bad)
 
@@ -101,7 +123,7 @@ CFG = {
     "run_modules": ["Verif.C01.Run"],
     "coq_dirs": ["C01"],
     "n": {"quick": 4000, "thorough": 400000},
-    "gen_extra": "vp=80",
+    "gen_extra": "vp=50",
     "shard": 250,
     "max_report": 2,
     "level": "translation_validation",
@@ -130,7 +152,8 @@ CFG = {
         "builtins, the parser and the lexer are covered only by the crash search, not by proof",
         "an instruction kind missing from the table makes the verifier skip the body (reported as coverage gap)",
     ],
-    "predicates": {},
+    "predicates": {"C01.arguments_captured_by_arrow_stays_on_stack": pred_f24,
+                   "C01.generator_return_while_suspended_in_finally_that_throws": pred_f25},
     "manifest": {
         "text": ("translation validation, partial: a bytecode verifier (work-list abstract interpretation of operand-stack height, stack "
                  "locals, variadic markers and the try stack) is proved sound in Rocq against a small-step model of the VM's stack "
